@@ -264,6 +264,8 @@ Cb(b) ==
     /\ ~Idle /\ IsCbOp(op.name) /\ op.phase = "idle"
     /\ b.k = op.k /\ op.k < op.n
     /\ (op.name = "generate" => b.idx = op.k)
+    \* zipping with an array of another (plain) element type: its element k arrives with ours
+    /\ (op.name = "zipx" => b.pv = op.k)
     /\ IF op.name = "iter_clone"
        THEN Len(b.args) = 1 /\ b.args[1] \in SeqRange(op.srcs[1]) \ DOMAIN op.cmap
        ELSE ItemsEq(b.args, CbArgs(op.name, op.srcs, op.n, op.k))
@@ -335,7 +337,7 @@ RetCb(r) ==
                          THEN [i \in DOMAIN op.srcs[1] |-> op.cmap[op.srcs[1][i]]]
                          ELSE op.out
                 okind == CASE op.name = "iter_clone" -> "iter"
-                           [] op.name \in {"clone", "map", "zip"} -> op.kinds[1]
+                           [] op.name \in {"clone", "map", "zip", "zipx"} -> op.kinds[1]
                            [] OTHER -> op.okind
             IN
             /\ OutsMatch(r.outs, <<MkVal(okind, items, 0)>>)
